@@ -83,6 +83,12 @@ func c19SeqClass(want, got []int) string {
 
 func c19Ctx() *plush.Context {
 	ctx := plush.NewContext()
+	ctx.Set("imin", math.MinInt)
+	ctx.Set("imin1", math.MinInt+1)
+	ctx.Set("imin2", math.MinInt+2)
+	ctx.Set("imax", math.MaxInt)
+	ctx.Set("imax1", math.MaxInt-1)
+	ctx.Set("imax2", math.MaxInt-2)
 	return ctx
 }
 
@@ -173,6 +179,39 @@ func c19Run(b *core.B) {
 			w, _ = expectSeq(0, a-1, false)
 		}
 		tmplCase("until("+neg(a)+")", w)
+	}
+
+	// the template-level helpers at the extremes of int: short intervals in full,
+	// huge ones left early with break (the loop must not depend on their length)
+	exNames := map[string]int{"imin": math.MinInt, "imin1": math.MinInt + 1, "imin2": math.MinInt + 2, "imax": math.MaxInt, "imax1": math.MaxInt - 1, "imax2": math.MaxInt - 2, "0": 0, "3": 3}
+	exKeys := []string{"imin", "imin1", "imin2", "imax", "imax1", "imax2", "0", "3"}
+	for _, an := range exKeys {
+		for _, cn := range exKeys {
+			a, c := exNames[an], exNames[cn]
+			if w, more := expectSeq(a, c, false); !more {
+				tmplCase("range("+an+", "+cn+")", w)
+			} else {
+				breakCase(b, &idx, "range("+an+", "+cn+")", w[:3])
+			}
+			if a != math.MaxInt && c != math.MinInt {
+				if w, more := expectSeq(a+1, c-1, false); !more {
+					tmplCase("between("+an+", "+cn+")", w)
+				} else {
+					breakCase(b, &idx, "between("+an+", "+cn+")", w[:3])
+				}
+			} else {
+				tmplCase("between("+an+", "+cn+")", nil)
+			}
+		}
+		if a := exNames[an]; a > 0 {
+			if w, more := expectSeq(0, a-1, false); !more {
+				tmplCase("until("+an+")", w)
+			} else {
+				breakCase(b, &idx, "until("+an+")", w[:3])
+			}
+		} else {
+			tmplCase("until("+an+")", nil)
+		}
 	}
 
 	// groupBy: both implementations, partition laws
@@ -295,6 +334,33 @@ func c19Run(b *core.B) {
 		if res.Pan == nil && (res.Err != nil || res.Out != fmt.Sprint(c.want)) {
 			b.Violate("wrong-len|template", fmt.Sprintf("<%%= len(x) %%> with x = %#v gave %s, want %d", c.v, res, c.want))
 		}
+	}
+}
+
+// breakCase loops over a huge interval and leaves after three elements.
+func breakCase(b *core.B, idx *int64, call string, first3 []int) {
+	*idx++
+	if !b.Mine(*idx) {
+		return
+	}
+	t := "<%= for (k, v) in " + call + " { %>[<%= v %>]<% if (k == 2) { break } %><% } %>"
+	if !b.Begin(t) {
+		return
+	}
+	res := render(b, t, c19Ctx())
+	b.NonTrivialDistinct()
+	b.Count("template-loop-with-break-over-huge-interval")
+	if res.Pan != nil {
+		return
+	}
+	want := ""
+	for _, v := range first3 {
+		want += fmt.Sprintf("[%d]", v)
+	}
+	if res.Err != nil {
+		b.Violate("template-loop-rejected|"+strings.SplitN(call, "(", 2)[0]+"|"+core.ErrClass(res.Err), fmt.Sprintf("want %q, got error %v", want, res.Err))
+	} else if res.Out != want {
+		b.Violate("wrong-sequence|template:"+strings.SplitN(call, "(", 2)[0], fmt.Sprintf("want %q, got %q", want, res.Out))
 	}
 }
 
